@@ -23,6 +23,7 @@ CLASSES = {
     'rational': {'quick': 120, 'thorough': 4000},
     'solve': {'quick': 80, 'thorough': 2500},
     'matrix_text': {'quick': 300, 'thorough': 8000},
+    'mirror_pairs': {'quick': 150, 'thorough': 3000},
     'hostile_zero_rhs': {'quick': 16, 'thorough': 200},
     'hostile_contradiction': {'quick': 16, 'thorough': 200},
 }
@@ -53,6 +54,7 @@ def names_for(rng, n):
 
 def linear_system(rng, n, names, nlines):
     rows, text = [], []
+    linear_system.last_pair = None
     for _ in range(nlines):
         a = [coef(rng) for _ in range(n)]
         if not any(a): a[rng.randrange(n)] = rng.choice([1.0, -2.0])
@@ -65,6 +67,21 @@ def linear_system(rng, n, names, nlines):
             rhs = '%s + %s*%s' % (fmt(b), fmt(cr), names[j]); a[j] -= cr
         else: rhs = fmt(b)
         rows.append((a, cmp, b)); text.append('%s %s %s' % (terms, cmp, rhs))
+    if rng.random() < 0.25 and len(rows) < 4:
+        # a scaled copy of an existing line with another comparator: the pair may pinch the solution set to an equality
+        # (>= with <=), or be contradictory (> with <), or be redundant; whatever simplify returns must have the same solution set
+        a, cmp, b = rows[rng.randrange(len(rows))]
+        if cmp != '=':
+            sc = rng.choice([1.0, 2.0, 0.5, 3.0])
+            mirror = {'<=': '>=', '>=': '<=', '<': '>', '>': '<'}[cmp]
+            cmp2 = rng.choice([mirror, mirror, cmp, {'<=': '>', '>=': '<', '<': '>=', '>': '<='}[cmp]])
+            a2 = [sc * c for c in a]; b2 = sc * b
+            rows.append((a2, cmp2, b2))
+            pair = frozenset((cmp, cmp2))
+            linear_system.last_pair = ('contradictory_strict' if pair == frozenset(('<', '>')) else
+                                       'contradictory_complement' if pair in (frozenset(('>', '<=')), frozenset(('<', '>='))) else
+                                       'pinch' if pair == frozenset(('<=', '>=')) else 'other')
+            text.append('%s %s %s' % (' + '.join('%s*%s' % (fmt(c), v) for c, v in zip(a2, names) if c != 0), cmp2, fmt(b2)))
     return rows, '\n'.join(text)
 
 
@@ -89,7 +106,7 @@ def sample_points(rng, n, rows, k):
     return pts
 
 
-def compare(obs, rng, text, cases, names, pts, flipneeded, extra_pts=()):
+def compare(obs, rng, text, cases, names, pts, flipneeded, extra_pts=(), **ctx):
     """pointwise equivalence of the input with the disjunction of the cases"""
     seen = set(); bad = []
     for x in list(pts) + list(extra_pts):
@@ -102,8 +119,27 @@ def compare(obs, rng, text, cases, names, pts, flipneeded, extra_pts=()):
         seen.add(a)
         if a != b and len(bad) < 3:
             bad.append({'x': x, 'input_holds': a, 'cases_hold': bs})
-    obs.check(not bad, 'same:the rewritten system is satisfied by exactly the same points as the input', text=text, cases=list(cases), witnesses=bad)
+    obs.check(not bad, 'same:the rewritten system is satisfied by exactly the same points as the input', text=text, cases=list(cases), witnesses=bad,
+              merged_to_not_equal=any('!=' in c for c in cases),
+              equalities_in=sum(1 for l in T.lines(text) if T.split(l)[1] in ('=', '==')),
+              equalities_out=[sum(1 for l in T.lines(c)) and sum(1 for l in T.lines(c) if T.split(l)[1] in ('=', '==')) for c in cases], **ctx)
     return seen
+
+
+def contradiction_check(obs, text, cases, names, pts, tag):
+    """the input is contradictory BY CONSTRUCTION (two lines bound the same expression from incompatible sides): every returned
+    case must then be unsatisfiable.  A point at which some case decidedly holds refutes that - also when the point lies on the
+    input's own boundary, where sampling alone cannot decide the input."""
+    wit = []
+    for x in pts:
+        hs = [T.satisfied3(c, names, x) for c in cases]
+        if any(h is True for h in hs) and len(wit) < 3:
+            wit.append({'x': x, 'input_holds': False, 'cases_hold': hs})
+    obs.event('contradictory_inputs')
+    obs.check(not wit, 'same:the rewritten system is satisfied by exactly the same points as the input', text=text, cases=list(cases), witnesses=wit,
+              merged_to_not_equal=any('!=' in c for c in cases), mirrored_pair=tag, input_contradictory_by_construction=True,
+              equalities_in=sum(1 for l in T.lines(text) if T.split(l)[1] in ('=', '==')),
+              equalities_out=[sum(1 for l in T.lines(c) if T.split(l)[1] in ('=', '==')) for c in cases])
 
 
 def points_on_output(rng, cases, names, k):
@@ -146,7 +182,10 @@ def run_linear(rng, obs):
     if not all(isinstance(c, str) and c.strip() for c in cases):
         obs.skip('no result'); return
     pts = sample_points(rng, n, rows, 60)
-    seen = compare(obs, rng, text, cases, names, pts, None, points_on_output(rng, cases, names, 20))
+    onout = points_on_output(rng, cases, names, 20)
+    seen = compare(obs, rng, text, cases, names, pts, None, onout, mirrored_pair=linear_system.last_pair)
+    if (linear_system.last_pair or '').startswith('contradictory'):
+        contradiction_check(obs, text, cases, names, onout + pts, linear_system.last_pair)
     # was a flip decision needed?  (the variable simplify isolated had a negative coefficient in an inequality)
     neg = False
     for (a, c, b), line in zip(rows, T.lines(cases[0])):
@@ -154,6 +193,47 @@ def run_linear(rng, obs):
         if c != '=' and l in names and a[names.index(l)] < 0: neg = True
     obs.nontrivial = neg and len(seen) == 2
     obs.notes = {'cases': list(cases), 'truth_values_seen': sorted(seen)}
+
+
+def run_mirror(rng, obs):
+    """two lines over the same (scaled) linear expression with every combination of comparators, optionally with a third line:
+    redundant, pinching, complementary or contradictory pairs.  Whatever simplify returns must have the same solution set."""
+    from mystic.symbolic import simplify
+    n = rng.randint(1, 3)
+    variables, names = names_for(rng, n)
+    style = rng.choice(['int', 'float'])
+    a = [float(rng.choice([1, 2, 3, -1, -2])) for _ in range(n)] if style == 'int' else [coef(rng) or 1.0 for _ in range(n)]
+    b = float(rng.choice([0, 2, 4, -3])) if style == 'int' else rng.choice([0.0, 2.5, -3.0, 7.0])
+    sc = rng.choice([1.0, 2.0, 0.5, 3.0])
+    cmp1 = rng.choice(['<', '>', '<=', '>=']); cmp2 = rng.choice(['<', '>', '<=', '>='])
+    def line(aa, cmp, bb):
+        f = (lambda v: repr(int(v)) if style == 'int' and float(v).is_integer() else repr(v))
+        return '%s %s %s' % (' + '.join('%s*%s' % (f(c), v) for c, v in zip(aa, names) if c != 0), cmp, f(bb))
+    rows = [(a, cmp1, b), ([sc * c for c in a], cmp2, sc * b)]
+    text = '\n'.join(line(*r) for r in rows)
+    if rng.random() < 0.4 and n >= 2:
+        a3 = [float(rng.choice([1, -1, 2])) for _ in range(n)]; rows.append((a3, rng.choice(['<=', '>=']), float(rng.choice([1, 5, -2]))))
+        text += '\n' + line(*rows[-1])
+    pair = frozenset((cmp1, cmp2))
+    tag = ('contradictory_strict' if pair == frozenset(('<', '>')) else 'contradictory_complement' if pair in (frozenset(('>', '<=')), frozenset(('<', '>='))) else
+           'pinch' if pair == frozenset(('<=', '>=')) else 'other')
+    obs.desc = {'text': text, 'variables': variables if isinstance(variables, str) else names, 'pair': tag}
+    try:
+        res = simplify(text, variables=variables, all=True)
+    except Exception as e:
+        obs.skip('simplify raised %s' % type(e).__name__); obs.event('simplify_raised'); return
+    cases = res if isinstance(res, tuple) else (res,)
+    if not all(isinstance(c, str) and c.strip() for c in cases):
+        obs.event('no_result'); obs.nontrivial = False; obs.notes = {'result': repr(res)}; return
+    pts = sample_points(rng, n, [(r[0], r[1], r[2]) for r in rows], 50)
+    # points on the shared boundary a.x = b and just beside it
+    base = sample_points(rng, n, [(a, '=', b)], 30)
+    onout = points_on_output(rng, cases, names, 30)
+    seen = compare(obs, rng, text, cases, names, pts + base, None, onout, mirrored_pair=tag)
+    if tag.startswith('contradictory'):
+        contradiction_check(obs, text, cases, names, onout + pts + base, tag)
+    obs.nontrivial = len(seen) >= 1
+    obs.notes = {'cases': list(cases), 'pair': tag}
 
 
 def run_rational(rng, obs):
@@ -297,4 +377,4 @@ def run_case(cls, idx, rng, obs):
     np.seterr(all='ignore')
     if cls == 'hostile_zero_rhs': return run_hostile('zero_rhs', rng, obs)
     if cls == 'hostile_contradiction': return run_hostile('contradiction', rng, obs)
-    return {'linear': run_linear, 'rational': run_rational, 'solve': run_solve, 'matrix_text': run_matrix_text}[cls](rng, obs)
+    return {'linear': run_linear, 'rational': run_rational, 'solve': run_solve, 'matrix_text': run_matrix_text, 'mirror_pairs': run_mirror}[cls](rng, obs)
